@@ -30,6 +30,7 @@ META["text"] += ' R3 also: the flag stores are executed for every repeated recor
 META["text"] += ' R1 refutes grouping by itertools.groupby over the unsorted list (adjacent records only).'
 META["text"] += ' R5 also: the row loop skips no row.'
 META["text"] += ' R3 also: phantom, pool, tally_pool, votes and id are plain attributes of a CVR.'
+META["text"] += " (R6, N, frame condition on arguments) merging builds new records' contents from the records given: every function in scope changes the objects it is handed only in the ways confirmed for it (aud.ARG_EFFECTS); references are followed through aliases, elements, attributes, loop variables, .get/.items/.values and np.asarray, resolved by the bindings that reach the use."
 
 SPEC_TP = '''
 def spec(old, new):
@@ -43,6 +44,8 @@ def spec(old, new):
 
 
 def run(chk):
+    from .. import aud as _aud8
+    _aud8.argument_effects(chk, 'C18.R6', 'shangrla/core/Audit.py', "merging builds new records' contents from the records given", only=lambda q: q.startswith('CVR.'))
     idx = chk.idx
     chk.explain(
         "R1 ordered merge keyed by id; R2 dict merge with the later record on the right; R3 flag stores are boolean expressions "
